@@ -47,6 +47,8 @@ def make_case(prop, seed, i, tier):
         sub = rng.randrange(len(spec["tasks"]))
         t = spec["tasks"][sub]
         t["auto"], t["need_facility"], t["component"] = True, False, None
+    if rng.random() < 0.3:
+        G.add_idle_parts(rng, spec)
     kind = "roundtrip" if (i % 3 == 0) else "edits"
     first = ["sim"]
     if rng.random() < 0.2:
